@@ -3,6 +3,7 @@ CONSTANTS
   BUFBLOCKS = 4
   DEPTH = 3
   TIER = "quick"
+  SEEDV = 1
   FIXED = TRUE
   N0 <- L0
   NI <- LI
